@@ -53,7 +53,7 @@ func (p c08) Run(c *core.Ctx) {
 	if len(holders) == 0 && c.Rng.Intn(4) == 0 {
 		// a user post-processor widens every qualifier set by "G1" at run time: the model narrows with the
 		// widened sets (literal holders are left out of these cases: their tags cannot be rewritten)
-		prov = append(prov, &world.WidenPP{Add: "G1"})
+		prov = append(prov, &world.WidenPP{Add: "G1", ViaArgsMap: c.Rng.Intn(2) == 0}) // through Property.AddArg or through the map Args() hands out
 		c.Count("cases_with_run_time_widened_qualifiers", 1)
 		view = func(sc *world.Scenario) func() {
 			type saved struct {
